@@ -5,7 +5,7 @@ cd "$(dirname "$0")"
 export CARGO_NET_OFFLINE=true
 (cd lean && lake build bnum_driver 2>&1 | tail -2)
 # one invocation for all property and audit modules: Lake builds independent modules in parallel
-MODS=$(cd lean/Bnum && ls Props/*.lean Audit/*.lean | sed 's/\.lean$//; s#/#.#; s/^/Bnum./' | tr '\n' ' ')
+MODS=$(cd lean/Bnum && ls Props/*.lean Audit/*.lean Generated/*.lean | sed 's/\.lean$//; s#/#.#; s/^/Bnum./' | tr '\n' ' ')
 (cd lean && lake build $MODS 2>&1 | tail -3)
 # every bin except the all-widths ones (1024 instantiations each): those use the unoptimised profiles below
 BINS=$(cd harness/src/bin && ls *.rs | sed 's/\.rs$//' | grep -v '^widths' | grep -v 'w$' | sed 's/^/--bin /' | tr '\n' ' ')
